@@ -163,7 +163,7 @@ class PoolRun:
             bad_at(cfg["bad"], 0)     # syntax check
             args = ("simple", cfg["w"])
             self.pool = poolmod.SimpleTaskPool(
-                self.work, args=args, kwargs=None,
+                self.work, args=args, kwargs=[None, {"k1": "v1"}][len(cfg["w"] + cfg["ecb"]) % 2],
                 end_callback=self._make_cb("e", cfg["ecb"]),
                 cancel_callback=self._make_cb("c", cfg["ccb"]),
                 pool_size=psize, name=POOL_NAME)
@@ -240,6 +240,10 @@ class PoolRun:
             # called by the pool to create the coroutine: func(*args, **kwargs) / star_function
             if any(isinstance(a, Bad) for a in args) or kwargs.get("bad"):
                 raise TypeError("bad call")
+            if set(kwargs) == {"k1"}:        # the extra keyword argument of some apply()/start() requests
+                if kwargs["k1"] != "v1":
+                    raise TypeError("kwargs not passed through")
+                kwargs = {}
             if not args and not kwargs:
                 # an *empty* element of starmap / doublestarmap: func() - the element's identity
                 # was noted by the argument iterator right before it yielded (the pool calls
@@ -639,7 +643,8 @@ class PoolRun:
             args = [("apply", req, kv["w"]), ["apply", req, kv["w"]],
                     f"@{req:02d}{kv['w']}" if req < 100 and len(kv["w"]) == 2 else ("apply", req, kv["w"])][req % 3]
             self._spawn_result(self._call(
-                p.apply, func, args, None, int(kv["num"]), gname_to_str(g) if g else None,
+                p.apply, func, args, [None, {}, {"k1": "v1"}][req % 3], int(kv["num"]),
+                gname_to_str(g) if g else None,
                 self._make_cb("e", kv["ecb"]), self._make_cb("c", kv["ccb"])))
         elif op == "map":
             g = None if kv["g"] == "-" else kv["g"]
